@@ -532,7 +532,7 @@ Proof. intros Hf H0. unfold rl_from. rewrite Hf, (flush_noop m b1 H0). reflexivi
 
 Lemma maximal_from_len : forall rest cur, lenN (maximal_from cur rest) <= 1 + lenN rest.
 Proof.
-  unfold run in *. induction rest as [|[s l] rest IH]; intros cur; cbn [maximal_from].
+  induction rest as [|[s l] rest IH]; intros cur; cbn [maximal_from].
   - unfold lenN. cbn [length]. lia.
   - rewrite (lenN_cons (s, l)). destruct (fst cur + snd cur =? s).
     + specialize (IH (fst cur, snd cur + l)). lia.
@@ -634,7 +634,7 @@ Proof.
   assert (Hmax : lenN (maximal R) <= lenN R).
   { destruct R as [|r rest]; [cbn [maximal]; lia|]. cbn [maximal]. rewrite lenN_cons. apply maximal_from_len. }
   destruct (rl_from_spec m b2 BS2 L HS2 HP2 Hl2) as (v & BS3 & Hv & Hok & Hc3).
-  { rewrite Hc2, Hc1. unfold run in *. lia. }
+  { rewrite Hc2, Hc1. lia. }
   rewrite Hv. cbn [bind]. exists v, BS3. split; [reflexivity|]. split; [assumption|].
   rewrite Hc3, Hc2, Hc1. reflexivity.
 Qed.
